@@ -25,6 +25,8 @@ import subprocess
 import sys
 import time as _real_time
 
+_REAL_DATETIME_CLS = _real_dt.datetime
+
 CANON = ("t1.jsonl", "t2.jsonl", "t4.jsonl", "apply.jsonl", "turn.jsonl", "health.jsonl", "scheduler.jsonl")
 HASH_SEEDS_QUICK = ["0", "1", "7"]
 HASH_SEEDS_THOROUGH = ["0", "1", "2", "3", "7"]
@@ -36,7 +38,7 @@ DATES_THOROUGH = ["real", "2020", "2035"]
 
 # ------------------------------------------------------------------ environment shims
 class ClockProxy:
-    """Stands in for the `time` module inside the engine modules."""
+    """Scripted answers for time.time / perf_counter / monotonic / sleep."""
 
     def __init__(self, profile):
         self.profile = profile
@@ -60,7 +62,7 @@ class ClockProxy:
         return self._tick()
 
     def time(self):
-        return self._tick() + 1.7e9
+        return self._tick() * 4000.0 + 1.2e9   # scaled: wall-clock answers spread over hours / days between calls
 
     def monotonic(self):
         return self._tick()
@@ -75,14 +77,18 @@ class ClockProxy:
 def make_dt_proxy(date):
     year = {"2020": 2020, "2035": 2035}[date]
 
-    class _DT(_real_dt.datetime):
+    class _DT(_REAL_DATETIME_CLS):
         @classmethod
         def now(cls, tz=None):
-            return _real_dt.datetime(year, 1, 1, 12, 0, 0, tzinfo=tz)
+            return _REAL_DATETIME_CLS(year, 1, 1, 12, 0, 0, tzinfo=tz)
 
         @classmethod
         def utcnow(cls):
-            return _real_dt.datetime(year, 1, 1, 12, 0, 0)
+            return _REAL_DATETIME_CLS(year, 1, 1, 12, 0, 0)
+
+        @classmethod
+        def today(cls):
+            return _REAL_DATETIME_CLS(year, 1, 1, 12, 0, 0)
 
     class _Mod:
         datetime = _DT
@@ -97,7 +103,14 @@ def make_dt_proxy(date):
 
 
 class Env:
-    """Installs a (clock profile, wall date) pair into the engine modules; restores on exit."""
+    """Installs a (clock profile, wall date) pair process-wide; restores on exit.
+
+    The clock is owned by replacing the functions of the `time` module itself (every `time.time()` /
+    `time.perf_counter()` call anywhere in the engine, present or future, gets the scripted answer); the wall date
+    by replacing `datetime.datetime` in the `datetime` module and in every loaded clematis/configs module that
+    bound the class or the module under another name."""
+
+    TIME_FNS = ("time", "perf_counter", "monotonic")
 
     def __init__(self, clock, date):
         self.clock, self.date = clock, date
@@ -105,25 +118,29 @@ class Env:
 
     def __enter__(self):
         import sys as _s
-        from clematis.engine.orchestrator import core, parallel
-        from clematis.engine import apply as ap, snapshot as sn, cache as ca
-        from clematis.io import atomic
-        from clematis.memory import index as mi
-        from clematis.engine.stages.t2 import core as t2core, helpers as t2h
-        bundle = _s.modules.get("clematis.engine.stages.t3.bundle")
         if self.clock != "real":
             proxy = ClockProxy(self.clock)
-            for m in (core, parallel, ap, sn, atomic):
-                self.saved.append((m, "time", m.time))
-                m.time = proxy
+            for fn in self.TIME_FNS:
+                self.saved.append((_real_time, fn, getattr(_real_time, fn)))
+                setattr(_real_time, fn, getattr(proxy, fn))
+            self.saved.append((_real_time, "sleep", _real_time.sleep))
+            _real_time.sleep = proxy.sleep
+            for nm in ("time_ns", "perf_counter_ns", "monotonic_ns"):
+                base = getattr(proxy, nm[:-3])
+                self.saved.append((_real_time, nm, getattr(_real_time, nm)))
+                setattr(_real_time, nm, (lambda b=base: int(b() * 1e9)))
         if self.date != "real":
             modp, cls = make_dt_proxy(self.date)
-            for m in (mi, t2core, t2h):
-                self.saved.append((m, "dt", m.dt))
-                m.dt = modp
-            if bundle is not None and hasattr(bundle, "datetime"):
-                self.saved.append((bundle, "datetime", bundle.datetime))
-                bundle.datetime = cls
+            real_cls = _REAL_DATETIME_CLS
+            self.saved.append((_real_dt, "datetime", _real_dt.datetime))
+            _real_dt.datetime = cls
+            for name, m in list(_s.modules.items()):
+                if m is None or not (name.startswith("clematis") or name.startswith("configs")):
+                    continue
+                for attr, val in list(vars(m).items()):
+                    if val is real_cls:
+                        self.saved.append((m, attr, val))
+                        setattr(m, attr, cls)
         return self
 
     def __exit__(self, *a):
